@@ -116,8 +116,9 @@ def run_unit(unit, conf):
         for it in meta["items"]]
     canary_path, canary_names, cmeta = make_canary(unit, meta, text)
     with cf.ThreadPoolExecutor(2) as ex:
-        f1 = ex.submit(verus_run.run_verus, path, conf.get("rlimit"))
-        f2 = ex.submit(verus_run.run_verus, canary_path, conf.get("rlimit"))
+        # rlimit 50: a few index-heavy loops sit close to Verus' default of 10 and would flip with unrelated edits
+        f1 = ex.submit(verus_run.run_verus, path, conf.get("rlimit", 50))
+        f2 = ex.submit(verus_run.run_verus, canary_path, conf.get("rlimit", 50))
         res, cres = f1.result(), f2.result()
     r["checker_cmd"] = res["cmd"]
     r["verus_wall_s"] = res["wall_s"]
